@@ -2,7 +2,7 @@
    Only pinned statements; proofs are in Codegen/DeriveProofs.v. The table (rust_leaf, rust_ctor,
    leaf_row, ctor_row, type_of) is REGENERATED from zlink-core/src/introspect/type/ on every run;
    spec_type is the property's own mapping stated over Rust type names (Codegen/Derive.v). *)
-From ZV Require Import Codegen.IdlTy gen.TypeTable Codegen.Derive Codegen.DeriveProofs.
+From ZV Require Import Codegen.IdlTy gen.TypeTable Codegen.Derive Codegen.DeriveProofs Codegen.DeriveIdl.
 Open Scope string_scope.
 
 (* Every Rust type built from the `impl Type` rows (leaves, Option/Vec/sets/maps/wrappers in any
@@ -88,6 +88,71 @@ Proof.
   exists (RApp C_Option (RApp C_Box (RApp C_Option (RLeaf L_String)))). vm_compute. repeat split.
 Qed.
 Print Assumptions C16_nested_option_refuted.
+
+(* ---- interface round trip ----
+   assemble: an interface built from derived descriptions the way varlink_service/mod.rs builds
+   DESCRIPTION (custom types from CUSTOM_TYPE, methods from the object descriptions of parameter structs,
+   errors from VARIANTS). to_idl: the same tree over bytes (the IDL family's Idl/Idl.v), render / parse_interface
+   / normalise: the IDL family's transcriptions of Display, the parser, and "strip the blanks after #".
+   assembly_ok (executable, Codegen/DeriveIdl.v) asks of the DECLARATIONS: names legal in the IDL grammar,
+   doc comments valid UTF-8 without line break, field types supported, and the three Known classes
+   excluded: nested Option (C16.nested_option_roundtrip), documented variants of custom enums
+   (C16.enum_variant_comment_roundtrip), doc comments INSIDE an inline (Type-derived) type used as a
+   field type (zlink's parser drops those; its equality ignores them).
+
+   Then the description satisfies the IDL family's hypotheses and the rendered text parses back to the
+   description itself up to the blanks that `/// text` puts in front of every comment text. *)
+Theorem C16_assembled_wellformed :
+  forall (a : assembly) (i : iface), assemble a = Some i -> assembly_ok a = true ->
+  IN.interface_wf_nl (to_idl i) = true /\ IE.known_commented_enum (to_idl i) = false.
+Proof. exact assembled_wf. Qed.
+Print Assumptions C16_assembled_wellformed.
+
+Theorem C16_interface_roundtrips :
+  forall (a : assembly) (i : iface), assemble a = Some i -> assembly_ok a = true ->
+  IP.parse_interface (I.render (to_idl i)) = IP.Accept (IN.normalise (to_idl i)).
+Proof. exact assembled_roundtrips. Qed.
+Print Assumptions C16_interface_roundtrips.
+
+(* Non-vacuity, and why the IDENTITY form (C14_parse_render) cannot be used: the example assembly (///
+   comments everywhere, raw identifier, nested std/user types, custom struct and enum, unit and tuple
+   error variants) is inside the hypotheses; C14's strict interface_wf is FALSE for it (comment texts
+   start with a blank); the parsed tree is the normalised one, differs from the original, and equals it
+   under zlink's PartialEq (interface_leq). *)
+Example C16_roundtrip_nonvacuous :
+  assembly_ok ex_assembly = true /\
+  match assemble ex_assembly with
+  | Some i =>
+      IE.interface_wf (to_idl i) = false /\
+      match IP.parse_interface (I.render (to_idl i)) with
+      | IP.Accept t => I.interface_beq t (IN.normalise (to_idl i)) = true /\
+                       I.interface_beq t (to_idl i) = false /\ I.interface_leq t (to_idl i) = true
+      | _ => False
+      end
+  | None => False
+  end.
+Proof. vm_compute. repeat split; reflexivity. Qed.
+
+(* The two Known classes that concern comments are real: with a documented field inside an inline type
+   the parser returns a tree that is NOT the normalised one (the comment is gone; still equal under
+   zlink's PartialEq); with a documented variant of a two-variant custom enum the text is rejected. *)
+Example C16_roundtrip_known_classes :
+  assembly_ok ex_inline_doc_assembly = false /\
+  match assemble ex_inline_doc_assembly with
+  | Some i => match IP.parse_interface (I.render (to_idl i)) with
+              | IP.Accept t => I.interface_beq t (IN.normalise (to_idl i)) = false /\
+                               I.interface_leq t (to_idl i) = true
+              | _ => False
+              end
+  | None => False
+  end /\
+  assembly_ok ex_doc_variant_assembly = false /\
+  match assemble ex_doc_variant_assembly with
+  | Some i => IP.parse_interface (I.render (to_idl i)) = IP.Reject
+  | None => False
+  end.
+Proof. vm_compute. repeat split; reflexivity. Qed.
+Print Assumptions C16_roundtrip_known_classes.
 
 (* Non-vacuity: a struct with nested std types, a nested custom type, a raw identifier and doc comments
    satisfies the hypotheses and evaluates to the stated description. *)
